@@ -1,0 +1,115 @@
+//go:build verif
+
+package home
+
+import (
+	"fmt"
+	"os"
+
+	yaml "gopkg.in/yaml.v3"
+)
+
+// This file is only compiled with the "verif" build tag.  It adds to the
+// accessors of engine E5 "homeweb" (verif_hooks_homesim.go) the life of a
+// process that was started on first run and is configured through the install
+// wizard without being restarted.  It changes nothing in the shipped build.
+
+// VerifHomesimNewFirstRunNode assembles the state of a process that was started
+// without a configuration file: the authentication module is created without
+// users, as initUsers does when the configuration lists none, and the process
+// is in first-run mode, so that everything redirects to the install page.
+// c.User and c.Password are the credentials that [VerifHomesimNode.Install]
+// will create; until then no administrator exists.
+//
+// The routes and module objects that handleInstallConfigure registers and
+// creates (registerControlHandlers, startMods) are put on the mux when the
+// node is assembled rather than by the installation step, since a pattern can
+// only be registered once; what the installation step changes in the process
+// (first-run flags, the user list of the live authentication module, the
+// configuration file) is changed by Install.
+func VerifHomesimNewFirstRunNode(c *VerifHomesimConf) (n *VerifHomesimNode, err error) {
+	cc := *c
+	cc.JustInstalled = true
+
+	n, err = VerifHomesimNewNode(&cc)
+	if err != nil {
+		return nil, err
+	}
+
+	// The authentication module of a first run: no users.
+	globalContext.auth.Close()
+	globalContext.auth = nil
+	n.users = nil
+
+	err = n.initAuth()
+	if err != nil {
+		return nil, err
+	}
+
+	globalContext.firstRun = true
+	globalContext.web.conf.firstRun = true
+
+	err = config.write(globalContext.tls)
+	if err != nil {
+		return nil, fmt.Errorf("writing configuration: %w", err)
+	}
+
+	return n, nil
+}
+
+// Install performs what handleInstallConfigure does to the process once the
+// request has been decoded and the ports have been checked: it leaves the
+// first-run mode, adds the administrator to the live authentication module
+// through [Auth.addUser], writes the configuration and, like the handler,
+// takes everything back if one of the steps fails.  The users that a later
+// restart of the authentication module is created with are read back from the
+// written configuration file.
+func (n *VerifHomesimNode) Install() (err error) {
+	web := globalContext.web
+
+	curConfig := &configuration{}
+	copyInstallSettings(curConfig, config)
+
+	globalContext.firstRun = false
+
+	u := &webUser{
+		Name: n.conf.User,
+	}
+	err = globalContext.auth.addUser(u, n.conf.Password)
+	if err != nil {
+		globalContext.firstRun = true
+		copyInstallSettings(config, curConfig)
+
+		return fmt.Errorf("adding user: %w", err)
+	}
+
+	err = config.write(web.tlsManager)
+	if err != nil {
+		globalContext.firstRun = true
+		copyInstallSettings(config, curConfig)
+
+		return fmt.Errorf("writing configuration: %w", err)
+	}
+
+	web.conf.firstRun = false
+
+	data, err := os.ReadFile(globalContext.confFilePath)
+	if err != nil {
+		return fmt.Errorf("reading configuration: %w", err)
+	}
+
+	written := &struct {
+		Users []webUser `yaml:"users"`
+	}{}
+	err = yaml.Unmarshal(data, written)
+	if err != nil {
+		return fmt.Errorf("decoding configuration: %w", err)
+	}
+
+	n.users = written.Users
+
+	return nil
+}
+
+// FirstRun returns true while the process is in first-run mode.
+func (n *VerifHomesimNode) FirstRun() (ok bool) { return globalContext.firstRun }
